@@ -24,7 +24,10 @@ def localMenu (s : String) : Option (List Bytes) :=
   else if s = "loop" then some [[127, 0, 0, 1]]
   else if s = "multi" then some [[10, 0, 0, 1], [10, 0, 0, 2]]
   else if s = "multiloop" then some [[10, 0, 0, 2]]
-  else if s = "v6" then some []
+  else if s = "v6" then some [[0,0,0,0,0,0,0,0,0,0,0,0,0,0,0,1]]              -- [::1]:3868: the only address is the loopback
+  else if s = "v6g" then some [[0x20,0x01,0x0d,0xb8,0,0,0,0,0,0,0,0,0,0,0,7]]     -- [2001:db8::7]:3868
+  else if s = "v6z" then some []                                                -- [fe80::1%eth0]:3868: zoned, not advertised
+  else if s = "mix6" then some [[10, 0, 0, 3], [0x20,0x01,0x0d,0xb8,0,0,0,0,0,0,0,0,0,0,0,8]]  -- 127.0.0.1/10.0.0.3/[2001:db8::8]:3868
   else if s = "empty" then some []
   else if s = "badport" then none
   else some []
